@@ -1,4 +1,5 @@
 import MxlVerif.Lemmas.C15Metric
+import MxlVerif.Lemmas.C15Rel
 import MxlVerif.Generated.C15Loop
 /-!
 C15 — steady-state results are steady states; absence is reported as failure.
@@ -10,6 +11,14 @@ variable {σ : Type}
 
 /-- generated-table obligation: the loop rebinds `y1` to a COPY of `y2`, not to the integrator's buffer -/
 theorem C15_loop_copies : Gen.copies = true := rfl
+
+/-- generated-table obligation: the search starts at the integrator's CURRENT (t0, y0) and advances it on success
+(no `self.reset()`); what the theorems below call "the state the simulator holds" -/
+theorem C15_search_continues : Gen.continues = true := rfl
+
+/-- the library's `simulate_to_steady_state` with the facts read from the source -/
+abbrev simSS (step : σ → σ) (small : σ → σ → Bool) (s : Sim σ) : Sim σ :=
+  simulateToSteadyState Gen.continues Gen.copies step small Gen.maxSteps Gen.stepSize s
 
 /-- SUCCESS IS A SMALL STEP: success at `n` means `1 ≤ n ≤ max_steps`, the reported state is the flow after
 `n` steps, the `n`-th consecutive difference is below the tolerance and no earlier one was. -/
@@ -50,6 +59,25 @@ theorem C15_accumulation_fails (d y0 : List Rat) (tol : Rat) (hlen : d.length = 
   right
   exact Rat.not_lt.mpr hd
 
+/-- F-C15-2, EXACTLY: one variable that accumulates for ever (`y ↦ y + d` per search step, d > 0, from `y0 > 0`: NO steady
+state) under the RELATIVE criterion is reported as failure if and only if the relative step is still at or above the
+tolerance at the LAST comparison of the budget, `tol·(y0 + (max_steps − 1)·d) ≤ d`.  This is the hypothesis that the
+absolute-norm theorem `C15_accumulation_fails` does not need. -/
+theorem C15_rel_accumulation_fails_iff (d y0 tol : Rat) (hd : 0 < d) (hy : 0 < y0) (ht : 0 < tol) :
+    ssRun Gen.copies (fun y => List.zipWith (· + ·) y [d]) (smallRel tol) Gen.maxSteps [y0] = .noSteadyState ↔
+      tol * (y0 + ((Gen.maxSteps - 1 : Nat) : Rat) * d) ≤ d := by
+  rw [C15_loop_copies]
+  exact rel_accumulation_none_iff d y0 tol hd hy ht (Gen.maxSteps - 1)
+
+/-- ... and the finding itself: dx/dt = 1 (d = 100 per step) from x = 100001 with tolerance 1e-3 is reported as a steady
+state at the first step (kernel-evaluated), through `get_result()` as one row at t = 100 with x = 100101. -/
+theorem C15_rel_accumulation_false_success :
+    ssRun Gen.copies (fun y => List.zipWith (· + ·) y [100]) (smallRel (1 / 1000)) Gen.maxSteps [100001]
+      = .steady 1 [100101] ∧
+    getResult (simSS (fun y => List.zipWith (· + ·) y [100]) (smallRel (1 / 1000)) (Sim.fresh [100001]))
+      = .ok [(100, [100101])] := by
+  constructor <;> decide +kernel
+
 /-- RELATIVE NORM, ZERO COMPONENT: a comparison against a previous state with a component that is exactly 0 is never
 "small" (numpy yields inf/nan there) — a variable resting at 0 can delay success, never cause it. -/
 theorem C15_rel_norm_zero_component_never_small (tol : Rat) (y2 y1 : List Rat) (h : (0 : Rat) ∈ y1) :
@@ -72,14 +100,6 @@ theorem C15_contraction_close {E : Type} [PseudoMetricSpace E] (step : E → E) 
   simp only [Nat.add_sub_cancel, decide_eq_true_eq] at hs
   rw [hr, iter_succ'] at *
   exact close_of_small_step step xs (iter step m y0) c tol hc0 hc1 hcontr hs
-
-/-- generated-table obligation: the search starts at the integrator's CURRENT (t0, y0) and advances it on success
-(no `self.reset()`); what the theorems below call "the state the simulator holds" -/
-theorem C15_search_continues : Gen.continues = true := rfl
-
-/-- the library's `simulate_to_steady_state` with the facts read from the source -/
-abbrev simSS (step : σ → σ) (small : σ → σ → Bool) (s : Sim σ) : Sim σ :=
-  simulateToSteadyState Gen.continues Gen.copies step small Gen.maxSteps Gen.stepSize s
 
 /-- FAILURE PROPAGATES: when the loop finds no steady state from the state the simulator holds,
 `simulate_to_steady_state().get_result()` is the error `NoSteadyState` (never a state) and the scan row is the NaN
